@@ -41,6 +41,10 @@ const hangDeadline = 5 * time.Second
 // documented maximum of 1<<24 runes (~80 MB).
 const allocCeiling = 512 << 20
 
+// smallCeiling is the ceiling of the targets that never call randString (config and
+// scenario decoding, ammo files): they allocate a few MB at most for these inputs.
+const smallCeiling = 256 << 20
+
 // ---------------------------------------------------------------------------
 // violations
 
@@ -74,11 +78,14 @@ const (
 	fJSONArrayTrailer = "httpjson-array-trailing-garbage-accepted"
 	fRawLastLine      = "raw-unterminated-last-line-ignored"
 	fNullItem         = "scenario-null-list-item-panics"
+	fXpathEval        = "var-xpath-evaluation-panics"
+	fStepHuge         = "step-schedule-huge-range-allocates"
 )
 
 // panicSites maps a frame of pandora's code to the finding whose symptom is a panic
 // raised under that frame. A panic anywhere else is unclassified.
 var panicSites = []struct{ frame, id string }{
+	{"github.com/antchfx/xpath.(*Expr).Evaluate", fXpathEval}, // the xpath library panics on type errors while evaluating
 	{"confutil.propertyTokenResolver", fPropertyNoKey},
 	{"scenario/http.convertScenarioToAmmo", fLeadingSleep},
 	{"scenario/grpc.convertScenarioToAmmo", fLeadingSleep},
@@ -90,6 +97,9 @@ func classifyPanic(p any, stack string) string {
 	for _, s := range panicSites {
 		if strings.Contains(stack, s.frame) {
 			if s.id == fLeadingSleep && !strings.Contains(fmt.Sprint(p), "index out of range [-1]") {
+				continue
+			}
+			if s.id == fXpathNonNodeSet && !strings.Contains(fmt.Sprint(p), "interface conversion") {
 				continue
 			}
 			return s.id
@@ -161,7 +171,7 @@ func bounded(what string, f func(ctx context.Context) error) error {
 // the allocation meter; a deadline hit is only reported after the same case hung
 // again on an immediate re-run (machine load cannot produce that twice in a row for
 // a >= 1000x margin), with the goroutine stacks attached.
-func judge(note func(k string, v any), inputLen int, body func() error) error {
+func judge(note func(k string, v any), inputLen int, ceiling uint64, body func() error) error {
 	var before, after runtime.MemStats
 	runtime.ReadMemStats(&before)
 	err := body()
@@ -180,8 +190,8 @@ func judge(note func(k string, v any), inputLen int, body func() error) error {
 		}
 	}
 	runtime.ReadMemStats(&after)
-	if d := after.TotalAlloc - before.TotalAlloc; d > allocCeiling && err == nil {
-		return violationf("ALLOCATION: %d MB allocated while handling a %d-byte input (ceiling %d MB)", d>>20, inputLen, allocCeiling>>20)
+	if d := after.TotalAlloc - before.TotalAlloc; d > ceiling && err == nil {
+		return violationf("ALLOCATION: %d MB allocated while handling a %d-byte input (ceiling %d MB)", d>>20, inputLen, ceiling>>20)
 	}
 	return err
 }
